@@ -792,17 +792,25 @@ let op_ui args =
   let open_link _ = OItem 999 and open_user _ = OItem 999 in
   let feed_named name = if List.mem name !feeds then Some (CList []) else None in
   let hook_fails _ = None in
-  let msg _ = [] in
+  let lit s = List.map (fun ch -> n_of_int (Char.code ch)) (List.init (String.length s) (String.get s)) in
+  let msg_feed x = lit "Failed to open feed: " @ x @ lit " is not a known feed" in
+  let msg_cmd x = lit "Failed to run command: unrecognized subcommand: " @ x in
   let pre = z_of_int preload in
-  let upd s k = update pre parents children select_link none1 none1 none1 none1 none1 none1 open_link open_user feed_named msg msg s (n_of_int k) in
+  let upd s k = update pre parents children select_link none1 none1 none1 none1 none1 none1 open_link open_user feed_named msg_feed msg_cmd s (n_of_int k) in
   let runt s t = run_task pre parents children harvest hook_fails s t in
   let settle_all s = settle pre parents children harvest hook_fails (nat_of_int 1000) s in
   let settle_g s = settle_gated pre parents children harvest hook_fails (nat_of_int 1000) s in
   ignore runt;
+  let str s = List.map (fun ch -> n_of_int (Char.code ch)) (List.init (String.length s) (String.get s)) in
+  let rec rep k s = if k <= 0 then "" else s ^ rep (k - 1) s in
+  let full_text i w = str (Printf.sprintf "full %d w%d%s" i (int_of_z w) (rep (i mod 3) (Printf.sprintf "\nmore of %d" i))) in
+  let preview_text i w = str (Printf.sprintf "preview %d w%d%s" i (int_of_z w) (rep (i mod 2) "\nrest")) in
   let snap s =
     let (((((((m, b), pid), it), (lo, up)), (lu, ld)), fr), h) = snapshot s in
     [int_of_z m] @ put_text b @ [ (match pid with Some k -> int_of_nat k | None -> -1); (match it with Some i -> i | None -> -1);
-      int_of_z lo; int_of_z up; b2i lu; b2i ld; int_of_nat fr; int_of_z h ] in
+      int_of_z lo; int_of_z up; b2i lu; b2i ld; int_of_nat fr; int_of_z h ]
+    @ (if it = Some 999 then put_text [] else
+         match last_frame pre default_colors full_text preview_text s with Ok f -> put_text f | Panic -> panic_marker) in
   let s0 = ui_init (z_of_int width) (z_of_int height) in
   (* VerifOpen(root): switchTo under the lock, mode normal, one frame *)
   let s1 = runt s0 (TOpen (OItem root)) in
@@ -822,6 +830,31 @@ let op_ui args =
       out := !out @ snap !st; go r in
   go keys;
   !out
+
+(* observations of the ui op: mode, buffer, 8 numbers, frame text.  The state part is the keymap's subject (C07); the frame's
+   line count is C16's; its text must pass the terminal oracles (C01, C14); everything is compared raw as well. *)
+let parse_ui_obs l =
+  let rec go l acc = match l with
+    | [] -> List.rev acc
+    | _ ->
+      let (m, r) = take1 l in let (b, r) = take_text r in let (nums, r) = take_n 8 r in
+      let (fr, r) = (match r with x :: r' when x = -999999 -> (None, r') | _ -> let (t, r') = take_text r in (Some t, r')) in
+      go r ((m, b, nums, fr) :: acc) in
+  go l []
+let orc_ui args impl =
+  try
+    let io = parse_ui_obs impl and mo = parse_ui_obs (op_ui args) in
+    let state_eq = List.length io = List.length mo
+                   && List.for_all2 (fun (m, b, n, _) (m', b', n', _) -> m = m' && b = b' && n = n') io mo in
+    (* n = [pid; item; lower; upper; loadingUp; loadingDown; frames; lines of last frame]; the model's last number is the terminal height *)
+    let heights = List.length io = List.length mo
+                  && List.for_all2 (fun (_, _, n, fr) (_, _, n', _) ->
+                      let lines = List.nth n 7 and h = List.nth n' 7 in
+                      h < 2 || (lines = h && (match fr with Some (_ :: _ as t) -> int_of_z (height t) = h | _ -> true))) io mo in
+    let frames = List.filter_map (fun (_, _, _, fr) -> fr) io in
+    [("state_equals_model", state_eq); ("frame_height_ok", heights);
+     ("frame_wf", List.for_all wf_text_b frames); ("frame_neutral", List.for_all neutral_b frames)]
+  with _ -> [("well_formed_result", false)]
 
 (* ---------------- itemx: posts and actors rendered from the fields their constructor stored ---------------- *)
 (* fval from the lib stream: 0 value | 1 absent msg | 2 err msg *)
@@ -961,7 +994,7 @@ let () =
   regl "net" op_net orc_net;
   reg "item" op_item orc_item;
   regl "itemx" op_itemx orc_itemx;
-  reg "ui" op_ui (orc_equal op_ui);
+  reg "ui" op_ui orc_ui;
   reg "uihook" (fun _ -> []) (fun _ impl -> match impl with _ :: _ :: st :: _ -> [("every_key_processed", st = 0)] | _ -> []);
   reg "uistress" (fun _ -> []) (fun _ impl -> match impl with u :: o :: st :: _ -> [("frames_under_lock", u = 0); ("frames_one_at_a_time", o = 0); ("every_key_processed", st = 0)] | _ -> []);
   reg "rendernm" (fun _ -> []) no_oracle;
